@@ -94,8 +94,8 @@ func c05Sessions(faultSide string) vs.Verdict {
 	ctx := context.Background()
 	versions := []string{"2025-06-18", "2026-07-28"}
 	version := versions[vs.Choose("version", 2, 0)]
-	closers := []string{"client", "server", "both"}
-	closer := closers[vs.Choose("closer", 3, 0)]
+	closers := []string{"client", "server", "both", "server-twice", "client-twice"}
+	closer := closers[vs.Choose("closer", len(closers), 0)]
 	withCall := vs.Choose("inflight-call", 2, 0) == 0
 	ctl := vs.NewController()
 	gate := ctl.Gate("tool")
@@ -138,7 +138,7 @@ func c05Sessions(faultSide string) vs.Verdict {
 	case "server":
 		armS = true
 	}
-	if closer == "client" || closer == "both" {
+	for range map[string]int{"client": 1, "both": 1, "client-twice": 2}[closer] {
 		n++
 		vs.Go(func() {
 			vs.Point()
@@ -148,7 +148,7 @@ func c05Sessions(faultSide string) vs.Verdict {
 			done <- "cclose"
 		})
 	}
-	if closer == "server" || closer == "both" {
+	for range map[string]int{"server": 1, "both": 1, "server-twice": 2}[closer] {
 		n++
 		vs.Go(func() {
 			vs.Point()
@@ -196,6 +196,20 @@ func c05Sessions(faultSide string) vs.Verdict {
 	}
 	if fin >= 0 && stc >= 0 && stc < fin {
 		f.failf("transport-closed-before-handler-returned", "the server transport was closed while the tool handler was still running: %s", evJoin(evs))
+	}
+	// every Close that returns - also one that overlapped another Close - returns after the shutdown
+	// it stands for: handlers done, transport closed
+	for i, e := range evs {
+		switch e {
+		case "server-close-returned":
+			if stc < 0 || stc > i || (fin > i) {
+				f.failf("close-returned-before-shutdown server", "a ServerSession.Close returned before the handler had finished and the transport was closed: %s", evJoin(evs))
+			}
+		case "client-close-returned":
+			if ctc := evIndex(evs, "client-transport-closed"); ctc < 0 || ctc > i {
+				f.failf("close-returned-before-shutdown client", "a ClientSession.Close returned before the transport was closed: %s", evJoin(evs))
+			}
+		}
 	}
 	if stc < 0 || evIndex(evs, "client-transport-closed") < 0 {
 		f.failf("transport-not-closed", "a transport was never closed: %s", evJoin(evs))
